@@ -188,3 +188,100 @@ example : UintOps.sub 0 1 = .error .valueError := by
   rw [uint_sub_exact]; unfold uchecked; simp [u64]
 
 end Cel.Props.C01
+
+namespace Cel.Props.C01
+open Cel
+
+/-! #### every arithmetic expression tree: no intermediate result is ever wrapped -/
+
+def ochecked (z : Int) : Option Int := if i64 z then some z else none
+/-- exact mathematics with a range check at every node (the property's specification) -/
+def exactOp : AOp → Int → Int → Option Int
+  | .add, x, y => ochecked (x + y)
+  | .sub, x, y => ochecked (x - y)
+  | .mul, x, y => ochecked (x * y)
+  | .div, x, y => if y = 0 then none else ochecked (x.tdiv y)
+  | .mod, x, y => if y = 0 then none else some (x.tmod y)
+def specA : AExpr → Option Int
+  | .lit z => some z
+  | .neg a => (specA a).bind fun x => ochecked (-x)
+  | .bin op a b => (specA a).bind fun x => (specA b).bind fun y => exactOp op x y
+def leavesI64 : AExpr → Prop
+  | .lit z => i64 z
+  | .neg a => leavesI64 a
+  | .bin _ a b => leavesI64 a ∧ leavesI64 b
+
+theorem checked_toOption (z : Int) : (checked z).toOption = ochecked z := by
+  unfold checked ochecked; split <;> rfl
+theorem ochecked_i64 {z r : Int} (h : ochecked z = some r) : i64 r := by
+  unfold ochecked at h; split at h <;> simp_all
+
+theorem bin_spec (op : AOp) (x y : Int) (hy : i64 y) :
+    (IntOps.bin op x y).toOption = exactOp op x y := by
+  cases op <;> simp only [IntOps.bin, exactOp]
+  · rw [int_add_exact, checked_toOption]
+  · rw [int_sub_exact, checked_toOption]
+  · rw [int_mul_exact, checked_toOption]
+  · rw [int_div_exact]; split
+    · rfl
+    · rw [checked_toOption]
+  · rw [int_mod_exact x y hy]; split <;> rfl
+
+theorem exactOp_i64 (op : AOp) (x y r : Int) (hy : i64 y) (h : exactOp op x y = some r) : i64 r := by
+  cases op <;> simp only [exactOp] at h
+  · exact ochecked_i64 h
+  · exact ochecked_i64 h
+  · exact ochecked_i64 h
+  · split at h
+    · simp at h
+    · exact ochecked_i64 h
+  · split at h
+    · simp at h
+    · rename_i hy0; simp at h; subst h; exact tmod_i64 x y hy hy0
+
+theorem toOption_some {r : PyM Int} {x : Int} (h : r.toOption = some x) : r = .ok x := by
+  cases r <;> simp_all [Except.toOption]
+theorem toOption_none {r : PyM Int} (h : r.toOption = none) : ∃ c, r = .error c := by
+  cases r <;> simp_all [Except.toOption]
+
+/-- **Every arithmetic expression over int64 leaves** evaluates to the exact result if every
+intermediate result fits int64 and to an error otherwise — for all trees, any depth. -/
+theorem evalA_spec : (e : AExpr) → leavesI64 e →
+    (evalA e).toOption = specA e ∧ (∀ r, specA e = some r → i64 r)
+  | .lit z, h => ⟨rfl, fun r hr => by simp [specA] at hr; subst hr; exact h⟩
+  | .neg a, h => by
+      have ih := evalA_spec a h
+      simp only [evalA, specA]
+      cases hs : specA a with
+      | none =>
+        obtain ⟨c, hc⟩ := toOption_none (ih.1.trans hs)
+        rw [hc]; exact ⟨rfl, fun r hr => by simp at hr⟩
+      | some x =>
+        rw [toOption_some (ih.1.trans hs)]
+        show (IntOps.neg x).toOption = ochecked (-x) ∧ _
+        rw [int_neg_exact]
+        exact ⟨checked_toOption _, fun r hr => ochecked_i64 hr⟩
+  | .bin op a b, h => by
+      have iha := evalA_spec a h.1
+      have ihb := evalA_spec b h.2
+      simp only [evalA, specA]
+      cases hsa : specA a with
+      | none =>
+        obtain ⟨c, hc⟩ := toOption_none (iha.1.trans hsa)
+        rw [hc]; exact ⟨rfl, fun r hr => by simp at hr⟩
+      | some x =>
+        rw [toOption_some (iha.1.trans hsa)]
+        cases hsb : specA b with
+        | none =>
+          obtain ⟨c, hc⟩ := toOption_none (ihb.1.trans hsb)
+          rw [hc]; exact ⟨rfl, fun r hr => by simp at hr⟩
+        | some y =>
+          rw [toOption_some (ihb.1.trans hsb)]
+          have hy64 : i64 y := ihb.2 y hsb
+          exact ⟨bin_spec op _ _ hy64, fun r hr => exactOp_i64 op _ _ r hy64 hr⟩
+
+/-- non-vacuity: `- - MIN` is an error at the inner node, not MIN -/
+example : specA (.neg (.neg (.lit (-(2^63))))) = none := by
+  simp [specA, ochecked, i64]
+
+end Cel.Props.C01
